@@ -1,10 +1,236 @@
 import Driver.Util
+import Hv.Conc.Lifecycle
 
-/-! Placeholder: the line-protocol driver of domain C16 is not written yet. -/
+/-! Line-protocol driver of domain C16 (same ops and reply format as `/verif/harness/c16.go`).
+    The model tracks key sets; the driver carries the values and the per-record changed flag
+    (needed for NEW / UPDATED / SAME) beside it. -/
 namespace Driver.C16
+open Hv.Life
 
-def run (_args : List String) : IO UInt32 := do
-  IO.eprintln "drv: domain C16 has no driver yet"
-  return 2
+structure RecV where
+  key : String
+  val : String
+  dirty : Bool
+  /-- the object has a file pointer (loaded from the file or written by a flush) -/
+  persisted : Bool
+
+structure Th where
+  name : String
+  id : Nat
+  kind : String
+  key : String
+  val : String
+  stage : String     -- summoned | vigil | draining | done
+  gen : Nat
+
+structure DSt where
+  cfg : Cfg
+  s : St
+  /-- values per instance generation, and in the file -/
+  gens : List (Nat × List RecV)
+  fileV : List RecV
+  ths : List Th
+  next : Nat
+  /-- the model state already violated `Durable` (flag only once per case) -/
+  flagged : Bool
+  /-- fact: SaveFunction drops a queued delete marker when the key is re-created, and deleteHandler queues a
+      marker only for an object that has a file pointer -/
+  recreateDropsMarker : Bool
+  /-- delete markers queued in the write buffer of the mapped instance -/
+  markers : List String
+  /-- keys whose delete was acknowledged and that were not set again -/
+  ackDel : List String
+
+def keyNum (k : String) : Nat := match k with | "a" => 1 | "b" => 2 | "c" => 3 | _ => 9
+
+def memOf (d : DSt) (g : Nat) : List RecV := (d.gens.lookup g).getD []
+def setMem (d : DSt) (g : Nat) (m : List RecV) : DSt := { d with gens := (g, m) :: d.gens.filter (·.1 != g) }
+
+def durableB (s : St) : Bool :=
+  if s.live && s.stage < 2 then s.acked.all (fun k => s.mem.contains k) else s.acked.all (fun k => s.file.contains k)
+
+def act (d : DSt) (a : Act) : Option DSt :=
+  match step d.cfg d.s a with
+  | none => none
+  | some s' =>
+    -- mirror the value-level effects of instance creation and flushes
+    let d1 := { d with s := s' }
+    let d2 := if s'.gen != d.s.gen then
+        { setMem d1 s'.gen (d.fileV.map (fun r => { r with dirty := false, persisted := true })) with markers := [] } else d1
+    let flush := fun (x : DSt) =>
+      let m := memOf x s'.gen
+      let kept := x.fileV.filter (fun r => !m.any (·.key == r.key) && !x.markers.contains r.key)
+      { setMem x s'.gen (m.map (fun r => { r with persisted := true })) with fileV := m ++ kept, markers := [] }
+    let d3 := match a with
+      | .closeFlush => flush d2
+      | .flushTick => flush d2
+      | .destroyFinish _ => if s'.live then d2 else { d2 with fileV := [], markers := [] }
+      | _ => d2
+    some d3
+
+def acts (d : DSt) (as : List Act) : Option DSt := as.foldlM act d
+
+def flag (d0 d : DSt) (cause : String) : DSt × String :=
+  if !d.flagged && durableB d0.s && !durableB d.s then ({ d with flagged := true }, s!"\t#F:{cause}") else (d, "")
+
+/-- Set on the instance of generation `g` (value level) -/
+def writeV (d : DSt) (g : Nat) (k v : String) : DSt × String :=
+  let m := memOf d g
+  match m.find? (·.key == k) with
+  | none =>
+    let d' := if d.recreateDropsMarker && g == d.s.gen then { d with markers := d.markers.filter (· != k) } else d
+    ({ setMem d' g (m ++ [{ key := k, val := v, dirty := true, persisted := false }]) with ackDel := d.ackDel.filter (· != k) }, "NEW")
+  | some r =>
+    if r.dirty || r.val != v then
+      (setMem d g (m.map (fun x => if x.key == k then { x with val := v, dirty := true } else x)), "UPDATED")
+    else (d, "SAME")
+
+def delV (d : DSt) (g : Nat) (k : String) : DSt × String :=
+  let m := memOf d g
+  match m.find? (·.key == k) with
+  | some r =>
+    let d' := if r.persisted && g == d.s.gen && !d.markers.contains k then { d with markers := d.markers ++ [k] } else d
+    ({ setMem d' g (m.filter (·.key != k)) with ackDel := d.ackDel ++ [k] }, "DELETED")
+  | none => (d, "NOT_FOUND")
+
+def summonActs (d : DSt) (t : Nat) : List Act := if d.cfg.atomicSummon then [.summon t] else [.summon t, .begin t]
+
+def showKeys (m : List RecV) : String :=
+  let ks := (m.map (fun r => s!"{r.key}:{r.val}")).toArray.qsort (· < ·) |>.toList
+  "keys=[" ++ ",".intercalate ks ++ "]"
+
+def idOf (n : String) : Nat := match n with | "A" => 1 | "B" => 2 | "C" => 3 | _ => 4
+
+def step (d : DSt) (line : String) : DSt × String :=
+  match words line with
+  | ["case", _, _, _] =>
+    ({ d with s := init [], gens := [], fileV := [], ths := [], next := 10, flagged := false, markers := [], ackDel := [] }, line)
+  | ["set", k, v] =>
+    let t := d.next
+    match acts d (summonActs d t) with
+    | none => (d, "hang")
+    | some d1 =>
+      let g := (d1.s.th t).gen
+      let (d2, st) := writeV d1 g k v
+      match acts d2 [.write t (keyNum k), .cease t] with
+      | some d3 => ({ d3 with next := t + 1 }, st)
+      | none => (d, "ERR")
+  | ["del", k] =>
+    if !d.s.live && d.fileV.isEmpty then (d, "NOT_FOUND") else
+    let t := d.next
+    match acts d (summonActs d t) with
+    | none => (d, "hang")
+    | some d1 =>
+      let g := (d1.s.th t).gen
+      let (d2, st) := delV d1 g k
+      match act d2 (.del t (keyNum k)) with
+      | none => (d, "ERR")
+      | some d3 =>
+        let fin := if (d3.s.th t).pc == 4 then Act.destroyFinish t else Act.cease t
+        match act d3 fin with
+        | some d4 =>
+          let (d5, fl) := flag d d4 "C16-auto-destroy-loses-acked-write"
+          ({ d5 with next := t + 1 }, st ++ fl)
+        | none => (d, "hang")
+  | ["spawn", n, "set", k, v] =>
+    if d.ths.any (·.name == n) then (d, "bad-op") else
+    match act d (.summon (idOf n)) with
+    | none => (d, s!"{n} stuck")
+    | some d1 =>
+      let t : Th := { name := n, id := idOf n, kind := "set", key := k, val := v, stage := "summoned", gen := (d1.s.th (idOf n)).gen }
+      ({ d1 with ths := d1.ths ++ [t] }, s!"{n}@gw.set.summoned")
+  | ["spawn", n, "del", k] =>
+    if d.ths.any (·.name == n) then (d, "bad-op") else
+    if !d.s.live && d.fileV.isEmpty then (d, s!"{n} done NOT_FOUND") else
+    let tid := idOf n
+    match acts d (summonActs d tid) with
+    | none => (d, s!"{n} stuck")
+    | some d1 =>
+      let g := (d1.s.th tid).gen
+      let (d2, st) := delV d1 g k
+      match act d2 (.del tid (keyNum k)) with
+      | none => (d, "ERR")
+      | some d3 =>
+        if (d3.s.th tid).pc == 4 then
+          let t : Th := { name := n, id := tid, kind := "del", key := k, val := st, stage := "draining", gen := g }
+          -- with nobody else holding a vigil the drain is immediate
+          if d3.s.holders.isEmpty then
+            match act d3 (.destroyFinish tid) with
+            | some d4 =>
+              let (d5, fl) := flag d d4 "C16-auto-destroy-loses-acked-write"
+              ({ d5 with ths := d5.ths ++ [{ t with stage := "done" }] }, s!"{n} done {st}" ++ fl)
+            | none => (d, "ERR")
+          else ({ d3 with ths := d3.ths ++ [t] }, s!"{n}@destroy.draining")
+        else
+          match act d3 (.cease tid) with
+          | some d4 => ({ d4 with ths := d4.ths ++ [{ name := n, id := tid, kind := "del", key := k, val := st, stage := "done", gen := g }] }, s!"{n} done {st}")
+          | none => (d, "ERR")
+  | ["go", n] =>
+    match d.ths.find? (·.name == n) with
+    | none => (d, "bad-op")
+    | some t =>
+      let upd := fun (d' : DSt) (stage : String) => { d' with ths := d'.ths.map (fun u => if u.name == n then { u with stage := stage } else u) }
+      match t.kind, t.stage with
+      | "set", "summoned" =>
+        if d.cfg.atomicSummon then (upd d "vigil", s!"{n}@gw.set.vigil") else
+        match act d (.begin t.id) with
+        | some d1 => (upd d1 "vigil", s!"{n}@gw.set.vigil")
+        | none => (d, "ERR")
+      | "set", "vigil" =>
+        let (d1, st) := writeV d t.gen t.key t.val
+        match acts d1 [.write t.id (keyNum t.key), .cease t.id] with
+        | some d2 =>
+          let (d3, fl) := flag d d2 "C16-idle-close-loses-acked-write"
+          (upd d3 "done", s!"{n} done {st}" ++ fl)
+        | none => (d, "ERR")
+      | "del", "draining" =>
+        match act d (.destroyFinish t.id) with
+        | some d1 =>
+          let (d2, fl) := flag d d1 "C16-auto-destroy-loses-acked-write"
+          (upd d2 "done", s!"{n} done {t.val}" ++ fl)
+        | none => (d, s!"{n} stuck")
+      | _, _ => (d, "bad-op")
+  | ["tick", "arm"] =>
+    match act d .tickRead with
+    | some d1 => if d1.s.live then (d1, "tick parked") else (d1, "tick timeout")
+    | none => (d, "ERR")
+  | ["tick", "go"] =>
+    match act d .tickDecide with
+    | none => (d, "tick timeout")
+    | some d1 =>
+      if d1.s.stage == 1 then
+        match acts d1 [.closeFlush, .closeDone] with
+        | some d2 => (d2, "tick closed")
+        | none => (d1, "ERR")
+      else (d1, "tick noclose")
+  | ["close"] =>
+    if !d.s.live then (d, "closed") else
+    -- Close() itself checks nothing: flip, flush, callback
+    if d.s.closing then (d, "closed") else
+    let s1 := { d.s with closing := true, stage := 1 }
+    match acts { d with s := s1 } [.closeFlush, .closeDone] with
+    | some d2 => (d2, "closed")
+    | none => (d, "ERR")
+  | ["reopen"] =>
+    let back := fun (x : DSt) => if (memOf x x.s.gen).any (fun r => x.ackDel.contains r.key) then "\t#F:C16-delete-after-recreate-resurrects" else ""
+    if d.s.live then (d, showKeys (memOf d d.s.gen) ++ back d)
+    else if d.fileV.isEmpty then (d, "keys=[]")
+    else
+      let t := d.next
+      -- the value-level file may hold keys the key-set model has dropped (lost delete markers)
+      let d0 := { d with s := { d.s with file := d.fileV.map (fun r => keyNum r.key) } }
+      match acts d0 (summonActs d0 t ++ [.cease t]) with
+      | some d1 => ({ d1 with next := t + 1 }, showKeys (memOf d1 d1.s.gen) ++ back d1)
+      | none => (d, "hang")
+  | _ => (d, "bad-op")
+
+def run (args : List String) : IO UInt32 := do
+  let kv := parseArgs args
+  let yes := fun (k : String) => arg kv k == "yes"
+  let cfg : Cfg := { destroyRechecks := yes "destroyRechecksAfterDrain",
+                     atomicSummon := yes "listenerReadsTouchUnderLock" && yes "summonTakesVigil" }
+  lineLoop step { cfg := cfg, s := init [], gens := [], fileV := [], ths := [], next := 10, flagged := false,
+                  recreateDropsMarker := arg kv "recreateDropsDeleteMarker" != "no", markers := [], ackDel := [] }
+  return 0
 
 end Driver.C16
